@@ -79,18 +79,25 @@ func snapDiff(a, b snap) (touched []string) {
 	return
 }
 
+// c12Extra holds header fields a remote station put into the message being stored (mailbox-private
+// header names with paths in them): they must never decide where the message is written.
+var c12Extra map[string]string
+
 func c12Message(mid string) *fbb.Message {
 	m := fbb.NewMessage(fbb.Private, "LA1B")
 	m.AddTo("LA5NTA")
 	m.SetSubject("t")
 	m.SetBody("hello")
 	m.Header.Set("Mid", mid)
+	for k, v := range c12Extra {
+		m.Header.Set(k, v)
+	}
 	return m
 }
 
 func runC12(ctx *Ctx) error {
 	r, res := ctx.Rng, ctx.Res
-	res.Rule = "cases: MID byte strings (separators, dot-dot segments, absolute, empty, 1..300 bytes, non-ASCII, NUL, backslash, plus ordinary MIDs) x {ProcessInbound, GetInboundAnswer, SetSent/SetDeferred, AddOut} on a DirHandler inside a sandbox tree with decoy files around the mailbox; recursive snapshots before/after give the touched paths. Compared with the model's touched paths; oracle: every touched path is inside the mailbox directory. Non-trivial: MID containing a separator, a dot segment, NUL or non-ASCII; distinct by (op, MID)."
+	res.Rule = "every fourth stored message also carries the mailbox-private header names X-FilePath (pointing outside the mailbox), X-Unread and X-P2POnly as a remote station could set them; cases: MID byte strings (separators, dot-dot segments, absolute, empty, 1..300 bytes, non-ASCII, NUL, backslash, plus ordinary MIDs) x {ProcessInbound, GetInboundAnswer, SetSent/SetDeferred, AddOut} on a DirHandler inside a sandbox tree with decoy files around the mailbox; recursive snapshots before/after give the touched paths. Compared with the model's touched paths; oracle: every touched path is inside the mailbox directory. Non-trivial: MID containing a separator, a dot segment, NUL or non-ASCII; distinct by (op, MID)."
 	root, err := os.MkdirTemp("", "verif-c12-")
 	if err != nil {
 		return err
@@ -139,6 +146,13 @@ func runC12(ctx *Ctx) error {
 			}
 			h := mailbox.NewDirHandler(mbox, false)
 			h.Prepare()
+			c12Extra = nil
+			if i%4 == 1 && (op == 0 || op == 4) {
+				// header content chosen by a remote station: the mailbox's own private header names
+				c12Extra = map[string]string{
+					"X-FilePath": []string{filepath.Join(sb, "decoy", "victim.b2f"), "../../x.b2f", filepath.Join(sb, "a", "planted.b2f")}[(i/4)%3],
+					"X-Unread":   "false", "X-P2POnly": "true"}
+			}
 			if op == 2 { // SetSent needs the message in the outbox
 				h.AddOut(c12Message(mid))
 			}
